@@ -205,7 +205,10 @@ impl Monitor {
         // I2
         if is_statement_start {
             self.report.statement_visits += 1;
-            if !self.tainted {
+            // a label is where the VM cuts the stacks back after a GOTO out of a block
+            // (TrimStacks follows it): depths are sampled at the statement after it
+            let is_label = matches!(instruction, Instruction::Label(_));
+            if !self.tainted && !is_label {
                 let base = self.regions.last().unwrap().base;
                 let mut rel = [0i64; NDEPTH];
                 for i in 0..NDEPTH {
